@@ -1242,6 +1242,7 @@ def run_history(hs: dict, root: str, fault_at: Any = None, crash_at: int | None 
     sim = FsSim(root, hs.get('bufsize', 8192), fault_at, crash_at, plan=plan)
     outcomes: list[str] = []
     listings: list[dict[str, bytes]] = [listing(root)]
+    leaked: list[Any] = []
     with sim, deadline():
         AWSpy = make_spy_class(sim)
         aw = AWSpy(dest, is_bytes=not hs.get('text'), **({'encoding': hs['encoding']} if hs.get('text') else {}))
@@ -1252,8 +1253,16 @@ def run_history(hs: dict, root: str, fault_at: Any = None, crash_at: int | None 
             sim.set_phase('pre')
             outcome = 'ok'
             try:
-                with aw as f:
+                if use.get('abandon'):
+                    # letter A: entered and written, but the matching __exit__ never happens (a generator that is never
+                    # resumed, a caller that leaks the context): the handle stays open, the object is used again later
+                    f = aw.__enter__()
+                    leaked.append(f)
                     body_plain(use)(f)
+                    outcome = 'abandoned'
+                else:
+                    with aw as f:
+                        body_plain(use)(f)
             except (Exception, KeyboardInterrupt) as e:
                 outcome = _outcome(e)
             except HangError as e:
@@ -1265,6 +1274,11 @@ def run_history(hs: dict, root: str, fault_at: Any = None, crash_at: int | None 
         while len(outcomes) < len(hs['uses']):       # a hung use ends the history: the later uses are not run
             outcomes.append(outcomes[-1])
             listings.append(listings[-1])
+    for f in leaked:          # outside the interposition: handles the history left open are closed unrecorded
+        try:
+            f.close()
+        except Exception:
+            pass
     return dict(ops=sim.ops, outcomes=outcomes, listings=listings, snaps=sim.snaps, dest=dest)
 
 
@@ -1290,6 +1304,9 @@ def history_scenarios(ck: Ck) -> list[dict]:
             chunks: list[Any] = [b'U%d-AAAA' % u, b'U%d-BBBBBB' % u, b'U%d-CC' % u]
             if text:
                 chunks = [c.decode() + '\n' for c in chunks]
+            if ch == 'A':       # entered, one or two chunks written, never exited
+                us.append(dict(chunks=chunks[:1 + u % 2], abandon=True))
+                continue
             us.append(dict(chunks=chunks, **({'raise_after': 1 + u % 2} if ch == 'B' else {})))
         return us
 
@@ -1309,6 +1326,17 @@ def history_scenarios(ck: Ck) -> list[dict]:
     add('SB', text=True, encoding='utf8', bufsize=8192)
     add('BS', text=True, encoding='utf8', bufsize=4)
     add('SSB', init={'keep.txt': b'k'}, bufsize=8192)          # the destination does not exist before the first use
+    # round 5: words with the letter A = entered and written but never exited (the handle stays open), then used again
+    add('AS')
+    add('AS', bufsize=8192)
+    add('AS', text=True, encoding='utf8', bufsize=8192)
+    add('SAS', text=True, encoding='utf16', bufsize=4)
+    add('AAS', init={'out.bin': OLD, 'tmp_2': b'STALE2', 'keep.txt': b'k'}, bufsize=6)
+    add('ABS')
+    if escalated(ck):
+        for w in ['ASA', 'AAB', 'SASB', 'BAAS']:
+            add(w, bufsize=ck.rng.choice([1, 7, 8192]))
+        add('ASS', text=True, encoding='utf8', bufsize=1)
     for _ in range(budget(ck, 2, 12)):
         w = ''.join(ck.rng.choice('SB') for _ in range(ck.rng.choice([2, 3, 3, 4])))
         init = {'keep.txt': b'keep'}
@@ -1326,7 +1354,8 @@ def hist_replay_obj(mode: str, hs: dict, k: Any) -> dict:
     d['uses'] = [{**u, 'chunks': [c.hex() if isinstance(c, bytes) else c for c in u['chunks']]} for u in hs['uses']]
     return {'mode': mode, 'history': d, 'k': k,
             'how': './check C12 --replay <this file> re-runs the history (one AtomicWriter object, one `with` block per '
-                   'letter of `word`: S = body returns, B = body raises) with the same OSError / kill point k'}
+                   'letter of `word`: S = body returns, B = body raises, A = entered by hand and written, never exited) with the same '
+                   'OSError / kill point k'}
 
 
 _MISSING = object()
@@ -1394,11 +1423,32 @@ def attr_case(r: dict, per_use: list[dict], names: list[str], objterm: str = 'aw
 def _prev_class(word: str, outcomes: list[str], u: int) -> str:
     if u == 0:
         return 'first-use'
+    if word[u - 1] == 'A':
+        return 'after-a-use-left-open'
     if outcomes[u - 1] == 'ok':
         return 'after-a-successful-use'
     if outcomes[u - 1] == 'body':
         return 'after-an-abandoned-use'
     return 'after-a-failed-use'
+
+
+def held_names(hs: dict, r: dict) -> list[str | None]:
+    """For every use of an executed history: the temp name whose handle the object still holds when the use starts (left
+    by a use that was entered but never exited), computed from the recorded operations alone: a use without __exit__
+    keeps the temp file it opened; the next entry that is attempted gives it up."""
+    out: list[str | None] = []
+    held: str | None = None
+    for u, use in enumerate(hs['uses']):
+        out.append(held)
+        uops = [o for o in r['ops'] if o['u'] == u]
+        if held is not None and uops:
+            # entering again gives the old temp file up: it is removed, or (close / unlink refused: the entry fails) at
+            # least forgotten — an object that comes back to the NAME later may find it owned by somebody else
+            held = None
+        opened = [o['name'] for o in uops if o['op'] == 'open' and o['res'] == 'ok']
+        if use.get('abandon') and opened:
+            held = opened[-1]
+    return out
 
 
 def history_campaign(ck: Ck, do_model: bool) -> None:
@@ -1421,7 +1471,9 @@ def history_campaign(ck: Ck, do_model: bool) -> None:
         # (use u, j-th raw write) = token 16*u + j: distinct over the whole history, below the tokens of old contents
         wmaps, scens = [], []
         wall: dict[int, tuple[int, bytes]] = {}
-        modelled = do_model and nuse <= 5
+        # the model's histories are words over complete uses: a history with a use that is never exited is judged by the
+        # oracle alone (what the model says about it is the entry obligation on the generated prologue)
+        modelled = do_model and nuse <= 5 and not any(u.get('abandon') for u in hs['uses'])
         for u, use in enumerate(hs['uses']):
             wr = [o for o in ops0 if o['u'] == u and o['op'] == 'write']
             modelled = modelled and len(wr) <= 15
@@ -1440,44 +1492,68 @@ def history_campaign(ck: Ck, do_model: bool) -> None:
             of the model, specialised to the run class of the injected exception; None: oracle only)."""
             rp = hist_replay_obj('history', hs, fault)
             per_use: list[dict] | None = []
+            helds = held_names(hs, r)
             for u, use in enumerate(hs['uses']):
                 before, after, outc = r['listings'][u], r['listings'][u + 1], r['outcomes'][u]
                 uops = [o for o in r['ops'] if o['u'] == u]
                 hit = [o for o in uops if o['res'] == 'fault']
                 raising = use.get('raise_after') is not None
+                leaving = bool(use.get('abandon'))
+                held = helds[u]
                 pos = _prev_class(hs['word'], r['outcomes'], u)
-                what = (f'history {hs["word"]}, use {u + 1} ({"body raises" if raising else "body returns"}'
+                what = (f'history {hs["word"]}, use {u + 1} ('
+                        f'{"entered, written, never exited" if leaving else "body raises" if raising else "body returns"}'
                         f'{", OSError in " + op_label(hit[0]) if hit else ""}; {pos.replace("-", " ")}): ')
                 cause = ((f'{op_label(hit[0])}-{hit[0]["cls"].split(":")[0]}-fault' if hit[0].get('cls') else f'{op_label(hit[0])}-fault')
-                         if hit else ('body-exception' if raising else 'success'))
+                         if hit else ('leaving-open' if leaving else 'body-exception' if raising else 'success'))
                 transient = isinstance(fault, dict) and fault.get('times') is not None     # refused k times, then accepted
-                exp_out = 'body' if raising else 'ok'
-                if (not hit and outc != exp_out) or (hit and ((outc == 'ok' and not transient) or outc.startswith(('other', 'hang')))):
+                exp_out = 'abandoned' if leaving else 'body' if raising else 'ok'
+                if (not hit and outc != exp_out) or (hit and ((outc in ('ok', 'abandoned') and not transient)
+                                                              or outc.startswith(('other', 'hang')))):
                     ck.violation(f'reuse:unexpected-outcome-after-{cause}:{pos}', what + f'the with statement ended with {outc}', rp)
                 d = after.get(hs['dest'])
                 if outc == 'ok' and d != news[u]:
                     ck.violation(f'reuse:wrong-content-after-{cause}:{pos}', what + f'destination holds {d!r:.60}', rp)
                 if outc != 'ok' and d != before.get(hs['dest']):
                     ck.violation(f'reuse:dest-changed-after-{cause}:{pos}',
-                                 what + f'the use failed ({outc}) but the destination holds {d!r:.60} instead of '
+                                 what + f'the use did not commit ({outc}) but the destination holds {d!r:.60} instead of '
                                         f'{before.get(hs["dest"])!r:.40}', rp)
                 extra = set(after) - set(before) - {hs['dest']}
-                if extra and not any(o['op'] == 'unlink' for o in hit):
-                    ck.violation(f'reuse:temp-left-after-{cause}:{pos}', what + f'{sorted(extra)} stayed in the directory', rp)
+                # a use that is never exited keeps the one temp file it opened (that is no handled failure: nothing has
+                # failed or ended yet); everything else is judged as before, relative to the directory the use started in
+                mine = {o['name'] for o in uops if o['op'] == 'open' and o['res'] == 'ok'} if leaving else set()
+                if extra - mine and not any(o['op'] == 'unlink' for o in hit):
+                    ck.violation(f'reuse:temp-left-after-{cause}:{pos}', what + f'{sorted(extra - mine)} stayed in the directory', rp)
                 for n0, v0 in before.items():
-                    if n0 != hs['dest'] and after.get(n0) != v0:
+                    if n0 != hs['dest'] and n0 != held and after.get(n0) != v0:
                         ck.violation(f'reuse:foreign-file-touched-after-{cause}:{pos}', what + f'{n0} changed or vanished', rp)
+                # the temp file of the use that was left open: entering again must give it up (close the handle, remove the
+                # file) before anything else happens, and the new use must write into a file created afresh
+                npro = 0        # the prologue of the entry: the operations before mkdir that concern the held temp file
+                if held is not None:
+                    while npro < len(uops) and uops[npro]['op'] != 'mkdir' and uops[npro]['phase'] == 'enter' \
+                            and uops[npro]['name'] == held:
+                        npro += 1
+                pro, rest = uops[:npro], uops[npro:]
+                if held is not None and uops:
+                    shape = [(o['op'], o['res']) for o in pro if o['op'] != 'write']
+                    refused = any(o['res'] == 'fault' for o in pro)
+                    if not refused and shape not in ([('close', 'ok'), ('unlink', 'ok')], [('unlink', 'ok')]):
+                        ck.violation(f'reuse:open-temp-not-given-up-on-entry:{pos}',
+                                     what + f'the object still held {held}; entering again performed '
+                                            f'{[(o["op"], o["name"], o["res"]) for o in uops[:6]]} instead of close + unlink of {held} first', rp)
                 opens = [(o['name'], o['res']) for o in uops if o['op'] == 'open']
                 if opens and not any(o['op'] in ('mkdir', 'open') for o in hit):
+                    taken = set(before) - ({held} if any(o['op'] == 'unlink' and o['res'] != 'fault' for o in pro) else set())
                     j = 1
-                    while f'tmp_{j}' in before:
+                    while f'tmp_{j}' in taken:
                         j += 1
                     if opens != [(f'tmp_{i}', 'exist') for i in range(1, j)] + [(f'tmp_{j}', 'ok')]:
                         ck.violation(f'reuse:temp-name-loop:{pos}', what + f'open attempts {opens[:6]}, expected tmp_1..tmp_{j}', rp)
-                first = uops[0]['op'] if uops else None
+                first = rest[0]['op'] if rest else None
                 if first is not None and first != 'mkdir':
                     ck.violation(f'reuse:entry-does-not-start-afresh:{pos}',
-                                 what + f'the use starts with {first} {uops[0]["name"]} (left over from the previous use)', rp)
+                                 what + f'the use starts with {first} {rest[0]["name"]} (left over from the previous use)', rp)
                 ck.seen(('history', hs['kind'], repr(fault), u))
                 if not modelled or per_use is None or objterm is None:
                     continue
@@ -1517,6 +1593,7 @@ def history_campaign(ck: Ck, do_model: bool) -> None:
                                   what={'run': how, 'history': hs['kind'], 'fault': repr(fault)}))
 
         judge(base, None, 'fault-free history')
+        helds0 = held_names(hs, base)
         # ---- one OSError at every injectable operation of the whole history
         for o in ops0:
             if not o['inj']:
@@ -1579,7 +1656,7 @@ def history_campaign(ck: Ck, do_model: bool) -> None:
             if len(extra) > 1 or any(NameMap.tmp_index(x) is None for x in extra):
                 ck.violation(f'reuse:unexpected-files-at-crash:{at}:{pos}', f'files {sorted(extra)} present after the kill', rp)
             for n0, v0 in before.items():
-                if n0 != hs['dest'] and lst.get(n0) != v0:
+                if n0 != hs['dest'] and n0 != helds0[u] and lst.get(n0) != v0:
                     ck.violation(f'reuse:foreign-file-touched-at-crash:{at}:{pos}', f'{n0} changed', rp)
     ck.extra['histories'] = {'scenarios': len(hss), 'words': sorted({h['word'] for h in hss})}
     if do_model and cases:
@@ -2918,7 +2995,8 @@ def single_campaign_bsp(ck: Ck, bscs: list[dict], do_model: bool) -> None:
 
 
 # digests (__exit__, make_tempfile) of the source versions the model was written against: pinned tree and repaired tree
-KNOWN_DIGESTS: set = {('b5de1bf6643e', 'd204472bc290'),     # repaired tree (both fix commits)
+KNOWN_DIGESTS: set = {('b5de1bf6643e', '45e89f0885c1'),     # repaired tree (round 5: make_tempfile forgets the old handle first)
+                      ('b5de1bf6643e', 'd204472bc290'),     # repaired tree of rounds 1-4 (both fix commits)
                       ('b5de1bf6643e', '729c8ddbf085'),     # first fix only
                       ('92656bb58107', '729c8ddbf085')}     # pinned tree
 
